@@ -59,14 +59,14 @@ PROPS = {
         ],
     ),
     'C03': dict(
-        verus=['tile_bbox', 'filters', 'overlay', 'converter', 'pmtiles_reader', 'versatiles_reader', 'pyramid_real'],
+        verus=['tile_bbox', 'filters', 'overlay', 'converter', 'pmtiles_reader', 'versatiles_reader', 'pyramid_real', 'mbtiles_pyramid'],
         kani=['pyramid'],
         not_decided=[
-            'MBTiles MIN/MAX SQL estimate-then-refine', 'tar/directory file-name parsing that feeds include_coord',
+            'MBTiles: SQL snippets outside the translation table of unit mbtiles_pyramid (ANCHOR-LOST, exit 2); the zoom-gap behaviour (NULL -> Err)', 'tar/directory file-name parsing that feeds include_coord',
         ],
     ),
     'C01': dict(
-        verus=['pmtiles_dir', 'pmtiles_dir_dec', 'varint_pbf', 'tile_bbox', 'tile_index', 'block_index'],
+        verus=['pmtiles_dir', 'pmtiles_dir_dec', 'varint_pbf', 'tile_bbox', 'tile_index', 'block_index', 'mbtiles_pyramid'],
         kani=['pmtiles_codec', 'versatiles_codec', 'tile_bbox', 'tile_bbox_iter'],
         not_decided=[
             'end-to-end write-then-read through async I/O (writer bodies, de-duplication closure, PMTiles write loop)',
@@ -96,7 +96,7 @@ PROPS = {
         ],
     ),
     'C16': dict(
-        verus=['pmtiles_dir', 'pmtiles_dir_dec', 'varint_pbf', 'pmtiles_reader', 'versatiles_reader', 'tile_index', 'block_index'],
+        verus=['pmtiles_dir', 'pmtiles_dir_dec', 'varint_pbf', 'pmtiles_reader', 'versatiles_reader', 'tile_index', 'block_index', 'mbtiles_pyramid'],
         kani=['pmtiles_codec', 'versatiles_codec'],
         not_decided=[
             'MBTiles zoom gaps (SQL), ./-prefixed tar members (string code)',
@@ -104,7 +104,7 @@ PROPS = {
         ],
     ),
     'C19': dict(
-        verus=['varint_pbf', 'pmtiles_dir', 'filters', 'converter', 'vector_tile_tables', 'pmtiles_reader', 'vector_tile_feature', 'convert_cli', 'versatiles_reader', 'tile_index', 'vector_tile_layer', 'block_index', 'pmtiles_dir_dec'],
+        verus=['varint_pbf', 'pmtiles_dir', 'filters', 'converter', 'vector_tile_tables', 'pmtiles_reader', 'vector_tile_feature', 'convert_cli', 'versatiles_reader', 'tile_index', 'vector_tile_layer', 'block_index', 'pmtiles_dir_dec', 'mbtiles_pyramid'],
         kani=['pmtiles_codec', 'versatiles_codec', 'geo'],
         not_decided=[
             'JSON / TileJSON / CSV / VPL text parsers (String, nom, core::fmt: outside both verifiers; Kani probes timed out)',
